@@ -35,7 +35,10 @@ Map sentence → theorem:
      `iterate_bins_count`, `iterate_passes`, `iterate_passes_unselected`;
  (6) `map_bins_shape`, `map_bins_cells_independent`, `map_bins_count_le`, `map_bins_start_error`, `map_bins_passes`;
  construction: `new_valid`, `new_rejects_edges`, `new_rejects_seq`, `new_rejects_argvar`;
- `histogram(edges, bins)`: `mkHistogram_ok`, and the quirk `mkHistogram_nested1`. -/
+ `histogram(edges, bins)`: `mkHistogram_ok`, `mkHistogram_nested1_ok` (edges `[[0, 1, 2]]`, after fix 8d715e5);
+ extension: `compute_twice_untyped`, `compute_twice_typed_differs`, `two_level_cells`, `analysis_fillAll_eq`,
+ `cellToStringOpts_default`, `cellToStringOpts_names`, `iterateBinsInit_ok_iff`, `mapBinsInit_ok_iff`, and the
+ Boolean twins of the vocabulary (`inRangeB_iff`, `pathInB_iff`, `lexLtB_iff`, `isCellEdgesB_iff`, `inCellB_iff`). -/
 
 namespace Lena.C11
 
@@ -406,8 +409,10 @@ theorem dimsOf_ne_nil' {e : Edges α} (he : ValidEdges e) : dimsOf e.axes ≠ []
   have := he.1
   simpa [dimsOf] using this
 
-/-- `histogram(edges, bins)` accepts bins of the regular shape of valid edges in a documented format -/
-theorem mkHistogram_ok {e : Edges α} (he : ValidEdges e) (hn : NotNested1 e) {b : NArr β}
+/-- `histogram(edges, bins)` accepts bins of the regular shape of valid edges — in the flat format of
+one-dimensional edges as well as in the nested format with any number of axes, one included (`[[0, 1, 2]]`,
+accepted since the fix 8d715e5 of `histogram.__init__`) -/
+theorem mkHistogram_ok {e : Edges α} (he : ValidEdges e) {b : NArr β}
     (hs : NArr.HasShape (dimsOf e.axes) b) :
     (mkHistogram e b : Except (Exc ε) (Hist α β)) = .ok ⟨e, b⟩ := by
   cases b with
@@ -422,28 +427,17 @@ theorem mkHistogram_ok {e : Edges α} (he : ValidEdges e) (hn : NotNested1 e) {b
       simp only [Edges.axes, dimsOf, List.map_cons, List.map_nil, NArr.HasShape] at hs
       simp [mkHistogram, C06.checkEdgesIncreasing_ok he, C06.lenBins, hs.1]
     | nested axes =>
-      have h1 := hn axes rfl
       cases axes with
       | nil => exact absurd rfl he.1
       | cons a0 rest =>
         simp only [Edges.axes, dimsOf, List.map_cons, NArr.HasShape] at hs
-        simp only [List.length_cons] at h1
-        have hr : rest ≠ [] := by intro h; simp [h] at h1
-        simp [mkHistogram, C06.checkEdgesIncreasing_ok he, C06.lenBins, hs.1, hr]
+        simp [mkHistogram, C06.checkEdgesIncreasing_ok he, C06.lenBins, hs.1]
 
-/-- **Quirk of `histogram.__init__`** (histogram.py:153-158): for one-dimensional edges in the nested form
-`[[e0, e1, …]]` the test compares `len(bins)` with `len(edges) − 1 = 0`, so the bins that `SplitIntoBins`
-builds for such edges are rejected in `compute()` with `LenaValueError`. -/
-theorem mkHistogram_nested1 {arr : List α} (he : ValidEdges (.nested [arr])) {b : NArr β}
+/-- in particular for one axis in the nested form (the former quirk of `histogram.__init__`) -/
+theorem mkHistogram_nested1_ok {arr : List α} (he : ValidEdges (.nested [arr])) {b : NArr β}
     (hs : NArr.HasShape [arr.length - 1] b) :
-    (mkHistogram (.nested [arr]) b : Except (Exc ε) (Hist α β)) = .error .lenaValueError := by
-  have ha : ValidAxis arr := he.2 arr (by simp [Edges.axes])
-  cases b with
-  | leaf v => simp [NArr.HasShape] at hs
-  | node xs =>
-    simp only [NArr.HasShape] at hs
-    have : xs.length ≠ 0 := by have := ha.1; omega
-    simp [mkHistogram, C06.checkEdgesIncreasing_ok he, C06.lenBins, this]
+    (mkHistogram (.nested [arr]) b : Except (Exc ε) (Hist α β)) = .ok ⟨.nested [arr], b⟩ :=
+  mkHistogram_ok he (by simpa [dimsOf, Edges.axes] using hs)
 
 /-- valid edges have at least one cell -/
 theorem exists_cell {e : Edges α} (he : ValidEdges e) {a : NArr β} (hs : NArr.HasShape (dimsOf e.axes) a) :
@@ -552,9 +546,9 @@ theorem result_count_stop {s : SIB α σ} (he : ValidEdges s.edges) (hs : NArr.H
       simpa [Trace.liftInner] using hf
 
 /-- **Exceptions of the cells' generators propagate**: when `compute()` raises after `_update_context`
-succeeded (edges in a documented format), it raises — wrapped as `inner` — the exception with which the
+succeeded, it raises — wrapped as `inner` — the exception with which the
 generator of a cell ended that has the fewest results. -/
-theorem compute_raise {s : SIB α σ} (he : ValidEdges s.edges) (hn : NotNested1 s.edges)
+theorem compute_raise {s : SIB α σ} (he : ValidEdges s.edges)
     (hs : NArr.HasShape (dimsOf s.edges.axes) s.bins)
     {ctx : Slots} (hctx : C14.updateContext names true s.curContext av.varCtx = .ok ctx)
     (e : Exc ε) (hfin : (SIB.compute names an av s).fin = some e) :
@@ -574,13 +568,13 @@ theorem compute_raise {s : SIB α σ} (he : ValidEdges s.edges) (hn : NotNested1
       simp only [Trace.liftInner, Option.map_eq_some_iff] at hf
       obtain ⟨e', he', hee⟩ := hf
       exact ⟨p, cst, e', hc, hlen, he', hee.symm⟩
-  · rw [mkHistogram_ok he hn hsh] at hm
+  · rw [mkHistogram_ok he hsh] at hm
     simp at hm
 
 /-- **Sentences (3)+(4) together, the regular case**: if no cell's generator raises, `_update_context`
-succeeds and the edges are in a documented format, `compute()` ends normally, and the number of histograms
+succeeds, `compute()` ends normally, and the number of histograms
 is the minimum over the cells of the number of results. -/
-theorem compute_complete {s : SIB α σ} (he : ValidEdges s.edges) (hn : NotNested1 s.edges)
+theorem compute_complete {s : SIB α σ} (he : ValidEdges s.edges)
     (hs : NArr.HasShape (dimsOf s.edges.axes) s.bins)
     {ctx : Slots} (hctx : C14.updateContext names true s.curContext av.varCtx = .ok ctx)
     (hall : ∀ p cst, cellAt s.bins p = some cst → (an.compute cst).fin = none) :
@@ -593,7 +587,7 @@ theorem compute_complete {s : SIB α σ} (he : ValidEdges s.edges) (hn : NotNest
     cases hf : (SIB.compute names an av s).fin with
     | none => rfl
     | some e =>
-      obtain ⟨p, cst, e', hc, _, hfe, _⟩ := compute_raise names an av he hn hs hctx e hf
+      obtain ⟨p, cst, e', hc, _, hfe, _⟩ := compute_raise names an av he hs hctx e hf
       rw [hall p cst hc] at hfe
       simp at hfe
   refine ⟨hfin, fun p cst hp => result_count_le names an av he hs p cst hp, ?_⟩
@@ -1041,6 +1035,175 @@ theorem iterate_each_cell_once {dims : List Nat} {a : NArr β} (hs : NArr.HasSha
   intro p
   rw [iterate_all_cells, cellAt_isSome_iff dims a p hs]
 
+/-! ## extension: a second `compute()`, two-level splits, `cell_to_string` options,
+constructors, the Boolean twins of the specification vocabulary -/
+section Extension
+variable [LT α] [LE α] [DecidableLT α] [DecidableLE α] [DecidableEq α]
+  [Std.IsLinearOrder α] [Std.LawfulOrderLT α]
+variable (names : List String)
+
+theorem setSlot_setSlot' : ∀ (l : Slots) (i : Nat) (v w : Option V), setSlot (setSlot l i v) i w = setSlot l i w
+  | [], 0, v, w => rfl
+  | [], i + 1, v, w => by simp [setSlot, setSlot_setSlot' [] i v w]
+  | x :: r, 0, v, w => rfl
+  | x :: r, i + 1, v, w => by simp [setSlot, setSlot_setSlot' r i v w]
+
+/-- `_update_context` with an untyped variable on a context that the same variable has just been written
+into changes nothing (the variable's context is truthy or not, it has neither `type` nor `compose`) -/
+theorem updateContext_idempotent (cur vc : Slots) (hcur : getSlot cur (C14.kVariable names) = none)
+    (ht : C14.hasKey vc (C14.kType names) = false) (hc : C14.hasKey vc (C14.kCompose names) = false) :
+    ∃ ctx, C14.updateContext names true cur vc = .ok ctx ∧ C14.updateContext names true ctx vc = .ok ctx := by
+  refine ⟨setSlot cur (C14.kVariable names) (some (.dict vc)), variable_fresh names cur vc hcur, ?_⟩
+  have hu : C14.updateVar names true (some (.dict vc)) vc = .ok vc := by
+    unfold C14.updateVar
+    by_cases htr : C14.V.truthy (.dict vc) = true
+    · simp [htr, ht, hc]
+    · simp [htr]
+  simp [C14.updateContext, getSlot_setSlot', hu, setSlot_setSlot']
+
+/-- **A second `compute()`** (not part of the property's statement; modelled because `_update_context` works on
+`_cur_context` in place).  For a flow without `context.variable` and an *untyped* argument variable, iterating
+`compute()` again on the same object yields exactly the same histograms and contexts (the cells' generators are
+recreated; the analysis' `compute` is assumed not to change its state). -/
+theorem compute_twice_untyped (an : Analysis σ D ρ ε) (av : ArgVar α D ε) (s : SIB α σ)
+    (hcur : getSlot s.curContext (C14.kVariable names) = none)
+    (ht : C14.hasKey av.varCtx (C14.kType names) = false)
+    (hc : C14.hasKey av.varCtx (C14.kCompose names) = false) :
+    SIB.computeAgain names an av s = SIB.compute names an av s := by
+  obtain ⟨ctx, h1, h2⟩ := updateContext_idempotent names s.curContext av.varCtx hcur ht hc
+  simp only [SIB.computeAgain, SIB.afterCompute, h1, SIB.compute, h2]
+
+/-- … whereas a *typed* variable is composed with itself: the contexts of the second run differ
+(`compose: [t, t]`).  Witness: the variable `Variable("x", …, type="t")` on an empty context. -/
+theorem compute_twice_typed_differs :
+    let names := ["compose", "name", "t", "type", "variable"]
+    let vc : Slots := [none, some (.str "x"), some (.dict [none, some (.str "x"), none, none, none]), some (.str "t"), none]
+    ∃ c1 c2, C14.updateContext names true (emptyD 5) vc = .ok c1 ∧ C14.updateContext names true c1 vc = .ok c2 ∧
+      c1 ≠ c2 := by
+  refine ⟨_, _, rfl, rfl, by decide +kernel⟩
+
+/-! ### two-level split -/
+
+/-- filling a `SplitIntoBins` used as the accumulator of an outer analysis is `SplitIntoBins.fill` -/
+theorem analysis_fillAll_eq (an : Analysis σ D ρ ε) (av : ArgVar α D ε) (guess : Nat → Nat → Nat → Int)
+    {ρ' : Type} (after : Trace (Hist α ρ × Slots) (Exc ε) → Trace ρ' (Exc ε)) :
+    ∀ (flow : List (Value D)) (k : Nat) (s s' : SIB α σ),
+      (SIB.analysis names an av guess after).fillAll s flow = .ok s' ↔
+        SIB.fillAllFrom names an av guess k s flow = .ok s'
+  | [], k, s, s' => by simp [Analysis.fillAll, SIB.fillAllFrom]
+  | v :: vs, k, s, s' => by
+    simp only [Analysis.fillAll, SIB.fillAllFrom, SIB.analysis]
+    cases hf : SIB.fill names an av guess s v with
+    | error e => simp
+    | ok s1 => exact analysis_fillAll_eq an av guess after vs (k + 1) s1 s'
+
+/-- **Two-level split** (`SplitIntoBins` around `FillComputeSeq(SplitIntoBins(analysis, …), *after)`): after
+any accepted flow, the inner cell `q` of the outer cell `p` holds exactly what the innermost analysis computes
+from the values routed to `p` by the outer variable *and* to `q` by the inner variable, in arrival order.
+(The generic theorems apply twice, because a `SplitIntoBins` is itself a fill/compute machine.) -/
+theorem two_level_cells {α' : Type} [LT α'] [LE α'] [DecidableLT α'] [DecidableLE α'] [DecidableEq α']
+    [Std.IsLinearOrder α'] [Std.LawfulOrderLT α']
+    (an : Analysis σ D ρ ε) (avI : ArgVar α' D ε) (gI : Nat → Nat → Nat → Int)
+    {ρ' : Type} (after : Trace (Hist α' ρ × Slots) (Exc ε) → Trace ρ' (Exc ε))
+    (avO : ArgVar α D (Exc ε)) (gO : Nat → Nat → Nat → Int)
+    {seqI : Option σ} {bI bO : Bool} {edgesI : Edges α'} {edgesO : Edges α}
+    {sI0 : SIB α' σ} {sO0 sO : SIB α (SIB α' σ)} (flow : List (Value D))
+    (hnewI : (SIB.new names seqI bI edgesI : Except (Exc ε) (SIB α' σ)) = .ok sI0)
+    (hnewO : (SIB.new names (some sI0) bO edgesO : Except (Exc (Exc ε)) (SIB α (SIB α' σ))) = .ok sO0)
+    (hrun : SIB.fillAll names (SIB.analysis names an avI gI after) avO gO sO0 flow = .ok sO) :
+    ∃ init, seqI = some init ∧
+      ∀ p, PathIn p (dimsOf edgesO.axes) →
+        ∃ sI, cellAt sO.bins p = some sI ∧ sI.edges = edgesI ∧
+          ∀ q, PathIn q (dimsOf edgesI.axes) →
+            ∃ c, cellAt sI.bins q = some c ∧
+              an.fillAll init
+                (subflow names avI gI edgesI (dimsOf edgesI.axes) q
+                  (subflow names avO gO edgesO (dimsOf edgesO.axes) p flow)) = .ok c := by
+  obtain ⟨s00, hs00, _, _, hcellsO⟩ :=
+    cell_is_subflow names (SIB.analysis names an avI gI after) avO gO flow hnewO hrun
+  simp only [Option.some.injEq] at hs00
+  subst hs00
+  obtain ⟨init, hseq, _, _⟩ := new_ok_inv names hnewI
+  refine ⟨init, hseq, ?_⟩
+  intro p hp
+  obtain ⟨sI, hsI, hfill⟩ := hcellsO p hp
+  have hfill' := (analysis_fillAll_eq names an avI gI after _ 0 sI0 sI).1 hfill
+  obtain ⟨init', hseq', hedI, _, hcellsI⟩ := cell_is_subflow names an avI gI _ hnewI hfill'
+  rw [hseq] at hseq'
+  simp only [Option.some.injEq] at hseq'
+  subst hseq'
+  exact ⟨sI, hsI, hedI, hcellsI⟩
+
+/-! ### `cell_to_string` with keyword arguments, constructors -/
+
+theorem joinWith_underscore : ∀ l : List String, joinWith "_" l = joinUnderscore l
+  | [] => rfl
+  | [s] => rfl
+  | s :: t :: r => by simp [joinWith, joinUnderscore, joinWith_underscore (t :: r)]
+
+/-- the default keyword arguments give the default `cell_to_string` -/
+theorem cellToStringOpts_default (fmt : α → String) (ce : List (α × α)) (vc : Option V) :
+    (cellToStringOpts names fmt {} ce vc : Except (Exc ε) V) = cellToString names fmt ce vc := by
+  unfold cellToStringOpts cellToString
+  cases coordNames (ε := ε) names ce.length vc with
+  | error e => rfl
+  | ok cn =>
+    by_cases h : ce.length ≠ cn.length
+    · simp [h]
+    · simp [h, joinWith_underscore, String.append_assoc]
+
+/-- explicit `coord_names`: the variable context is not consulted; a wrong number of names is a
+`LenaValueError`; otherwise the coordinates are formatted one by one, reversed on demand, and joined -/
+theorem cellToStringOpts_names (fmt : α → String) (o : CtsOpts) (cn : List String) (ho : o.coordNames = some cn)
+    (ce : List (α × α)) (vc : Option V) :
+    (cellToStringOpts names fmt o ce vc : Except (Exc ε) V) =
+      if ce.length ≠ cn.length then .error .lenaValueError
+      else .ok (.str (joinWith o.join
+        ((fun l => if o.reverse then l.reverse else l)
+          (List.zipWith (fun (e : α × α) nm =>
+            o.fmtPre ++ fmt e.1 ++ o.fmtMid1 ++ nm ++ o.fmtMid2 ++ fmt e.2 ++ o.fmtPost) ce cn)))) := by
+  simp only [cellToStringOpts, ho]
+
+/-- the constructors reject exactly the arguments that are not callable / not convertible -/
+theorem iterateBinsInit_ok_iff (a b : Bool) :
+    (iterateBinsInit a b : Except (Exc ε) Unit) = .ok () ↔ a = true ∧ b = true := by
+  cases a <;> cases b <;> simp [iterateBinsInit]
+
+theorem mapBinsInit_ok_iff (a b : Bool) :
+    (mapBinsInit a b : Except (Exc ε) Unit) = .ok () ↔ a = true ∧ b = true := by
+  cases a <;> cases b <;> simp [mapBinsInit]
+
+/-! ### the Boolean twins that the driver evaluates are the propositions of the theorems -/
+
+theorem inCellB_iff : ∀ (axes : List (List α)) (xs : List α) (idx : List Nat),
+    inCellB axes xs idx = true ↔ InCell axes xs idx
+  | [], [], [] => by simp [inCellB, InCell]
+  | [], [], _ :: _ => by simp [inCellB, InCell]
+  | [], _ :: _, _ => by simp [inCellB, InCell]
+  | _ :: _, [], _ => by simp [inCellB, InCell]
+  | _ :: _, _ :: _, [] => by simp [inCellB, InCell]
+  | arr :: axes, x :: xs, i :: idx => by
+    simp only [inCellB, InCell, Bool.and_eq_true, inCellB_iff axes xs idx]
+    constructor
+    · rintro ⟨h, hr⟩
+      refine ⟨?_, hr⟩
+      cases h1 : arr[i]? with
+      | none => simp [h1] at h
+      | some lo =>
+        cases h2 : arr[i + 1]? with
+        | none => simp [h1, h2] at h
+        | some hi =>
+          simp only [h1, h2, Bool.and_eq_true, decide_eq_true_eq] at h
+          obtain ⟨hl2, e2⟩ := List.getElem?_eq_some_iff.1 h2
+          obtain ⟨_, e1⟩ := List.getElem?_eq_some_iff.1 h1
+          exact ⟨hl2, by rw [e1]; exact h.1, by rw [e2]; exact h.2⟩
+    · rintro ⟨⟨hl, h1, h2⟩, hr⟩
+      refine ⟨?_, hr⟩
+      have hl' : i < arr.length := by omega
+      simp [List.getElem?_eq_getElem hl, List.getElem?_eq_getElem hl', h1, h2]
+
+end Extension
+
 /-! ## non-vacuity: concrete instances of the hypotheses (tests, not theorems) -/
 section Examples
 open Lena.C06 (exEdges exEdges_valid midGuess midGuess_ok ex_inCell ex_noCell)
@@ -1094,7 +1257,6 @@ example : SIB.fillAll [] exAn exAv exG exS0 [.bare [3, 1], .bare [3, 6]] = .ok e
 example : C14.updateContext [] true exS1.curContext exAv.varCtx = .ok [some (.dict [])] := rfl
 example : (SIB.compute [] exAn exAv exS1).out.map (fun hc => hc.1.bins) =
     [.node [.node [.leaf 0, .leaf 0], .node [.leaf 0, .leaf 0], .node [.leaf 0, .leaf 1]]] := by rfl
-example : NotNested1 exEdges := by intro axes h; cases h; decide
 
 -- exceptions as outcomes: an analysis that refuses every value (`fill_error_is_cells`) and whose generator
 -- raises at once (`compute_raise`)
